@@ -21,7 +21,7 @@ class C20(Prop):
         b = boundary_u64()
         step = 1 if tier == 'thorough' else 3
         ps = [(x, y) for i, x in enumerate(b) for j, y in enumerate(b) if (i + j) % step == 0]
-        for _ in range(20000 if tier == 'thorough' else 3000):
+        for _ in range(200000 if tier == 'thorough' else 3000):
             k1, k2 = rng.below(65), rng.below(65)
             ps.append((rng.next() >> k1, rng.next() >> k2))
         return ps
